@@ -37,12 +37,12 @@ MIN_HITS = {
     'quick': {'mon:ckpt': 2000, 'mon:resume': 2000, 'crash:line': 1000, 'crash:torn': 60, 'crash:fsop': 100, 'fsop:rename': 10, 'fsop:remove': 5, 'fsop:close': 20, 'crash:sequence': 30,
               'image:kill': 1000, 'image:exception': 1000, 'mon:keep': 500, 'crash-in:save_state': 30,
               'crash-in:save_checkpoint': 50, 'crash-after-last-round': 30, 'restart-past-last-round': 8,
-              'world:fedavg': 20},
+              'world:fedavg': 20, 'world:jaxmix': 2, 'crash:realkill': 2},
     'thorough': {'mon:ckpt': 40000, 'mon:resume': 40000, 'crash:line': 20000, 'crash:torn': 1000, 'crash:fsop': 800,
                  'fsop:rename': 100, 'fsop:remove': 30, 'fsop:close': 200, 'crash:sequence': 1500,
                  'image:kill': 20000, 'image:exception': 20000, 'mon:keep': 10000, 'crash-in:save_state': 500,
                  'crash-in:save_checkpoint': 400, 'crash-after-last-round': 500, 'restart-past-last-round': 60,
-                 'world:fedavg': 200, 'crash:realkill': 20},
+                 'world:fedavg': 200, 'crash:realkill': 20, 'world:jaxmix': 10},
 }
 TECHNIQUE = 'runtime fault injection: sys.monitoring failpoints at every executed line + torn GFile writes + real kills; restart-equivalence oracle against an uninterrupted reference run'
 LEVEL_TEXT = ('Single crashes are enumerated at every dynamic line event of the experiment loop, checkpointing, logging and state '
@@ -104,6 +104,26 @@ class World:
 
       self.algo = fedjax.FederatedAlgorithm(init, apply)
       self.init_state = init
+    elif kind == 'jaxmix':
+      # jax.Array state whose evolution depends on JAX's type promotion: a reduced-precision parameter vector, a WEAKLY typed
+      # scalar made from a Python number (bf16 * weak float stays bf16; bf16 * float32 becomes float32) and an int counter
+      pdt = [jnp.bfloat16, jnp.float16][int(rng.randint(2))]
+
+      def init():
+        return {'p': jnp.linspace(-1, 1, 4).astype(pdt), 'scale': jnp.asarray(0.25), 'round': jnp.asarray(0)}
+
+      def apply(state, clients):
+        m = hashlib.sha256()
+        m.update(np.asarray(state['p']).tobytes())
+        for cid, ds, key in clients:
+          m.update(cid)
+          m.update(np.asarray(key).tobytes())
+          m.update(np.ascontiguousarray(ds.raw_examples['x']).tobytes())
+        bump = m.digest()[0] / 256.0
+        return {'p': state['p'] * state['scale'] + bump, 'scale': state['scale'], 'round': state['round'] + 1}, {}
+
+      self.algo = fedjax.FederatedAlgorithm(init, apply)
+      self.init_state = init
     else:
       from vmon import toy
       from fedjax.algorithms import fed_avg
@@ -135,7 +155,7 @@ class World:
       return state['h'].tobytes().hex()[:16] + f":{state['round']}:{np.asarray(state['p16']).dtype}"
     import jax
     leaves = jax.tree_util.tree_leaves(state)
-    return hashlib.sha256(b''.join(np.asarray(l).tobytes() for l in leaves)).hexdigest()[:16]
+    return hashlib.sha256(b''.join(str(np.asarray(l).dtype).encode() + np.asarray(l).tobytes() for l in leaves)).hexdigest()[:16]
 
   def same_state(self, a, b):
     """Same pytree structure, same leaf kinds (Python scalar / NumPy / JAX array), same dtypes, same values."""
@@ -151,7 +171,9 @@ class World:
         return False
       if kx in ('jax', 'np') and (np.asarray(x).dtype != np.asarray(y).dtype or np.shape(x) != np.shape(y)):
         return False
-      if self.kind == 'hash':
+      if kx == 'jax' and bool(getattr(x, 'weak_type', False)) != bool(getattr(y, 'weak_type', False)):
+        return False      # a weakly typed scalar promotes differently from a strongly typed one in every later round
+      if self.kind in ('hash', 'jaxmix'):
         if not core.bit_equal(np.asarray(x), np.asarray(y)):
           return False
       elif not core.close(x, y, rtol=1e-6, atol=1e-7):
@@ -613,7 +635,9 @@ def real_kill(ctx, world_kind, world_seed, cfg, k, work, mon_factory):
     json.dump(spec, f)
   if os.path.exists(spec['out']):
     os.remove(spec['out'])
-  p = subprocess.run([sys.executable, '-c', CHILD, sp], capture_output=True, text=True, timeout=600, env=dict(os.environ))
+  # the killed run is ANOTHER PROCESS than the one that resumes: give it another hash salt as a re-run script would have
+  p = subprocess.run([sys.executable, '-c', CHILD, sp], capture_output=True, text=True, timeout=600,
+                     env=dict(os.environ, PYTHONHASHSEED=str(11 + (k or 0) % 89)))
   if p.returncode == failpoint.KILL_EXIT_CODE:
     ctx.count('crash:realkill')
     return root, True
@@ -638,7 +662,7 @@ def run(ctx):
       world = World('hash', np.random.RandomState(world_seed), fedjax, jnp)
       out = run_config(ctx, world, cfg, work, rng, mods, exhaustive=(idx < 6 or not ctx.quick), max_line_points=120)
       ctx.notes.setdefault('line_events_per_config', {})[str(idx)] = len(out[0]) if out else None
-      if out and not ctx.quick and cfg['ckpt'] and cfg['num_rounds'] >= 2:
+      if out and (not ctx.quick or idx < 3) and cfg['ckpt'] and cfg['num_rounds'] >= 2:
         # real kills: validate the in-process emulation against real process death
         events = out[0]
         ref = world.run(fresh_root(work, cfg), cfg)
@@ -652,6 +676,14 @@ def run(ctx):
                         'restart after a real process kill returned a different final state', w)
             ctx.case_done((tuple(sorted(cfg.items())), 'realkill', k), sample=w, klass='real-kill')
           shutil.rmtree(root, ignore_errors=True)
+    for cid, rng in ctx.cases('jaxmix', 2 if ctx.quick else 12):
+      idx = int(cid.split('/')[1])
+      cfg = gen_config(rng, 8 + idx, ctx.quick)
+      cfg['num_rounds'] = max(3, cfg['num_rounds'])
+      cfg['ckpt'] = cfg['ckpt'] or 1
+      world = World('jaxmix', np.random.RandomState(int(rng.randint(2**31 - 1))), fedjax, jnp)
+      ctx.count('world:jaxmix')
+      run_config(ctx, world, cfg, work, rng, mods, exhaustive=False, max_line_points=25 if ctx.quick else 60)
     nfed = 2 if ctx.quick else 14
     for cid, rng in ctx.cases('fedavg', nfed):
       idx = int(cid.split('/')[1])
